@@ -756,7 +756,12 @@ impl<T> TooDee<T> {
     {
         assert!(index < self.num_rows);
         let start = index * self.num_cols;
-        let drain = self.data.drain(start..start + self.num_cols);
+        // Move the row to the end and drain it from there. If the `Drain` is leaked
+        // (`mem::forget`), `Vec` keeps everything before the drained range, which is
+        // then exactly the remaining rows and matches the dimensions set below.
+        self.data[start..].rotate_left(self.num_cols);
+        let tail = self.data.len() - self.num_cols;
+        let drain = self.data.drain(tail..);
         self.num_rows -= 1;
         if self.num_rows == 0 {
             self.num_cols = 0;
@@ -817,8 +822,14 @@ impl<T> TooDee<T> {
     {
         assert!(index < self.num_cols);
 
-        let v = &mut self.data;
         let num_cols = self.num_cols;
+        let num_rows = self.num_rows;
+        // The array is empty for as long as the `DrainCol` exists: if it is leaked
+        // (`mem::forget`), the dimensions must agree with the emptied `Vec` below.
+        // `DrainCol::drop` restores them.
+        self.num_cols = 0;
+        self.num_rows = 0;
+        let v = &mut self.data;
         let slice_len = v.len() - num_cols + 1;
         unsafe {
             // set the vec length to 0 to amplify any leaks
@@ -829,6 +840,8 @@ impl<T> TooDee<T> {
                    v : slice::from_raw_parts_mut(v.as_mut_ptr().add(index), slice_len),
                },
                col : index,
+               num_cols,
+               num_rows,
                toodee : NonNull::from(self),
             }
         }
@@ -1034,6 +1047,9 @@ pub struct DrainCol<'a, T> {
     /// Current remaining elements to remove
     iter: Col<'a, T>,
     col: usize,
+    /// The dimensions of the array before the column was removed
+    num_cols: usize,
+    num_rows: usize,
     toodee: NonNull<TooDee<T>>,
 }
 
@@ -1087,10 +1103,10 @@ impl<T> Drop for DrainCol<'_, T> {
 
                     let mut dest = vec.as_mut_ptr().add(col);
                     let mut src = dest.add(1);
-                    let orig_cols = toodee.num_cols;
+                    let orig_cols = self.0.num_cols;
                     let new_cols = orig_cols - 1;
                     
-                    let num_rows = toodee.num_rows;
+                    let num_rows = self.0.num_rows;
                     
                     for _ in 1..num_rows {
                         ptr::copy(src, dest, new_cols);
@@ -1100,10 +1116,8 @@ impl<T> Drop for DrainCol<'_, T> {
                     
                     ptr::copy(src, dest, orig_cols - col - 1);
                     
-                    toodee.num_cols -= 1;
-                    if toodee.num_cols == 0 {
-                        toodee.num_rows = 0;
-                    }
+                    toodee.num_cols = new_cols;
+                    toodee.num_rows = if new_cols == 0 { 0 } else { num_rows };
 
                     // Set the new length based on the col/row counts
                     vec.set_len(toodee.num_cols * toodee.num_rows);
